@@ -50,8 +50,10 @@ Wrap(n) == LET sn == Snips[n] IN
     [] OTHER -> <<"", "">>
 
 Seps == << <<>>, <<32>>, <<9>>, <<10>>, <<13, 10>>, <<32, 32>> >>
+(* a delimiter token carries its white-space-control marker ({%- and -%}); the marker is formatting, not meaning *)
+NoMarker(t) == IF t.typ \in {"PRINT_OPEN", "TAG_OPEN", "PRINT_CLOSE", "TAG_CLOSE"} THEN SelectSeq(t.val, LAMBDA b : b # 45) ELSE t.val
 NonSpace(toks) == LET ns == SelectSeq(toks, LAMBDA t : t.typ \notin {"WHITESPACE", "EOF"}) IN
-                  [q \in 1..Len(ns) |-> [typ |-> ns[q].typ, val |-> ns[q].val]]        \* positions legitimately differ
+                  [q \in 1..Len(ns) |-> [typ |-> ns[q].typ, val |-> NoMarker(ns[q])]]        \* positions legitimately differ
 CanonTab == [n \in 1..Len(Snips) |-> NonSpace(Tokens(S2B(Snips[n])))]
 Canon(n) == CanonTab[n]
 
@@ -99,15 +101,25 @@ SepVectors(n, ts) ==
               ch \in {f \in [sub -> 1..Len(Seps)] : \A q \in sub : f[q] \in ChoicesAt(ts, q)} }
           : sub \in {s \in SUBSET Vary(ts) : Cardinality(s) <= MaxVary /\ Cardinality(s) >= 1} }
 
-Init == v_lvl = 0 /\ v_idx = <<0, <<>>>>
-Next == \/ v_lvl = 0 /\ v_lvl' = 1 /\ \E n \in 1..Len(Snips) : v_idx' = <<n, <<>>>>
-        \/ v_lvl = 1 /\ v_lvl' = 2 /\ \E sv \in SepVectors(v_idx[1], Canon(v_idx[1])) : v_idx' = <<v_idx[1], sv>>
+(* white-space-control markers: 0 none, 1 on the opening delimiter, 2 on the closing one, 3 both; combined with the canonical
+   separators and with every vector that varies one boundary *)
+SepVectors1(n, ts) ==
+  {CanonSeps(n)} \cup
+  UNION { { [q \in 1..(Len(ts) - 1) |-> IF q = b THEN Seps[c] ELSE CanonSep(n, q)] : c \in ChoicesAt(ts, b) } : b \in Vary(ts) }
+WithMarkers(ts, tr) ==
+  [q \in 1..Len(ts) |-> [typ |-> ts[q].typ,
+                         val |-> IF q = 1 /\ tr \in {1, 3} THEN ts[q].val \o <<45>>
+                                 ELSE IF q = Len(ts) /\ tr \in {2, 3} THEN <<45>> \o ts[q].val ELSE ts[q].val]]
+Init == v_lvl = 0 /\ v_idx = <<0, <<>>, 0>>
+Next == \/ v_lvl = 0 /\ v_lvl' = 1 /\ \E n \in 1..Len(Snips) : v_idx' = <<n, <<>>, 0>>
+        \/ v_lvl = 1 /\ v_lvl' = 2 /\ \E sv \in SepVectors(v_idx[1], Canon(v_idx[1])) : v_idx' = <<v_idx[1], sv, 0>>
+        \/ v_lvl = 1 /\ v_lvl' = 2 /\ \E sv \in SepVectors1(v_idx[1], Canon(v_idx[1])), tr \in 1..3 : v_idx' = <<v_idx[1], sv, tr>>
 
-Spelled == Spell(Canon(v_idx[1]), v_idx[2])
+Spelled == Spell(WithMarkers(Canon(v_idx[1]), v_idx[3]), v_idx[2])
 SpellingInvariant == v_lvl = 2 => NonSpace(Tokens(Spelled)) = Canon(v_idx[1])
 CanonIsCanon == v_lvl = 1 => (LET ts == Canon(v_idx[1]) IN Spell(ts, CanonSeps(v_idx[1])) = S2B(Snips[v_idx[1]]))
-Out == v_lvl = 2 => PrintT(ToJson([id |-> "C14-" \o ToString(v_idx[1]) \o "-" \o ToString(Len(Spelled)) \o "-" \o ToString(CountB(Spelled, 10)) ,
+Out == v_lvl = 2 => PrintT(ToJson([id |-> "C14-" \o ToString(v_idx[1]) \o "-" \o ToString(Len(Spelled)) \o "-" \o ToString(CountB(Spelled, 10)) \o "-" \o ToString(v_idx[3]),
                                    k |-> "spelleq", canon |-> S2B(Wrap(v_idx[1])[1]) \o S2B(Snips[v_idx[1]]) \o S2B(Wrap(v_idx[1])[2]),
                                    spelled |-> S2B(Wrap(v_idx[1])[1]) \o Spelled \o S2B(Wrap(v_idx[1])[2]), snip |-> v_idx[1],
-                                   nvar |-> Cardinality({q \in 1..Len(v_idx[2]) : v_idx[2][q] # CanonSep(v_idx[1], q)})]))
+                                   nvar |-> Cardinality({q \in 1..Len(v_idx[2]) : v_idx[2][q] # CanonSep(v_idx[1], q)}) + (IF v_idx[3] > 0 THEN 1 ELSE 0)]))
 =============================================================================
